@@ -26,6 +26,8 @@ var drvQueries = []drvQuery{
 	{text: `(a = $2 & b = $1) | a = $2 ; b, a`, args: []string{"q", "y"}, match: func(r drvRow) bool { return r["a"] == "y" }, groupBy: []string{"b", "a"}},
 	// grouping by a column that is called like the result column
 	{text: `a = "x" ; count, b`, match: isA("x"), groupBy: []string{"count", "b"}},
+	// every row, grouped by two columns (group order = the library's, value by value)
+	{text: `^ a = "zz" ; a, b`, match: func(r drvRow) bool { return r["a"] != "zz" }, groupBy: []string{"a", "b"}},
 	// a group-by column listed twice
 	{text: `a = "x" ; b, a, b`, match: isA("x"), groupBy: []string{"b", "a", "b"}},
 	{text: `zq = "1"`, wantErr: true},
